@@ -53,7 +53,7 @@ gc * gc_new(unsigned int mem_size)
     collector->wb_list[0] = wb_list_0;
     collector->wb_list[1] = wb_list_1;
 
-    collector->free = 1;
+    collector->free = (mem_size > 1) ? 1 : 0;
     collector->mem_size = mem_size;
     collector->mem = mem;
 
